@@ -14,6 +14,14 @@ fn dec<T: Decodable + Encodable>(b: &[u8]) -> String {
         Err(_) => "err".into(),
     }
 }
+/// like `dec`, with the decoded VALUE as a fifth field (primitive types: the model prints its own value, so the reading of the
+/// bytes — two's complement, number ↔ variant — is compared, not only the re-encoding)
+fn decv<T: Decodable + Encodable>(b: &[u8], show: impl Fn(&T) -> String) -> String {
+    match deserialize_partial::<T>(b) {
+        Ok((v, k)) => { let mut w = Vec::new(); let len = v.consensus_encode(&mut w).unwrap(); format!("ok {} {} {} {}", k, hex(&w), len, show(&v)) }
+        Err(_) => "err".into(),
+    }
+}
 /// strict parse + re-serialisation through `serialize` (whose `unwrap` / `debug_assert_eq!(len, written)` are live in this profile)
 fn sdec<T: Decodable + Encodable + std::fmt::Debug>(b: &[u8]) -> String {
     match deserialize::<T>(b) { Ok(v) => format!("ok {}", hex(&serialize(&v))), Err(_) => "err".into() }
@@ -28,12 +36,13 @@ pub fn exec(t: &[&str]) -> Option<String> {
             "key" => { let a = dec::<Key>(&b); let c = dec::<Hash>(&b); let d = dec::<KeyImage>(&b); let e = dec::<CtKey>(&b); if a == c && c == d && d == e { a } else { format!("DIFFER key={} hash={} keyimage={} ctkey={}", a, c, d, e) } }
             "hash8" => dec::<Hash8>(&b), "sig" => dec::<Signature>(&b), "key64" => dec::<Key64>(&b), "rangesig" => dec::<RangeSig>(&b),
             "bp" => dec::<Bulletproof>(&b), "bpp" => dec::<BulletproofPlus>(&b),
-            "u8" => dec::<u8>(&b), "u16" => dec::<u16>(&b), "u32" => dec::<u32>(&b), "u64" => dec::<u64>(&b),
+            "u8" => decv::<u8>(&b, |v| v.to_string()), "u16" => decv::<u16>(&b, |v| v.to_string()), "u32" => decv::<u32>(&b, |v| v.to_string()), "u64" => decv::<u64>(&b, |v| v.to_string()),
             "vec_varint" => dec::<Vec<VarInt>>(&b), "vec_key" => dec::<Vec<Key>>(&b), "vec_u8" => { let a = dec::<Vec<u8>>(&b); let c = dec::<RawExtraField>(&b); if a == c { a } else { format!("DIFFER vec={} raw={}", a, c) } }
             "string" => dec::<String>(&b),
             "vec_txin" => dec::<Vec<TxIn>>(&b), "vec_txout" => dec::<Vec<TxOut>>(&b),
             // stand-alone codecs that nothing else reaches (audit C01 §3.3/3.4, C02 §3.3)
-            "rcttype" => dec::<RctType>(&b), "bool" => dec::<bool>(&b), "i8" => dec::<i8>(&b), "i16" => dec::<i16>(&b), "i32" => dec::<i32>(&b), "i64" => dec::<i64>(&b),
+            "rcttype" => decv::<RctType>(&b, |v| gen::rct_num(*v).to_string()), "bool" => decv::<bool>(&b, |v| v.to_string()),
+            "i8" => decv::<i8>(&b, |v| v.to_string()), "i16" => decv::<i16>(&b, |v| v.to_string()), "i32" => decv::<i32>(&b, |v| v.to_string()), "i64" => decv::<i64>(&b, |v| v.to_string()),
             "box_key" => dec::<Box<[Key]>>(&b), "box_u8" => dec::<Box<[u8]>>(&b), "box_varint" => dec::<Box<[VarInt]>>(&b), "vec_hash" => dec::<Vec<Hash>>(&b),
             "klrki" => dec::<MultisigKlrki>(&b), "msout" => dec::<MultisigOut>(&b),
             _ => return None }) }
@@ -227,9 +236,22 @@ fn structural_sweeps(o: &mut Out, r: &mut Rng, thorough: bool) {
     else { for i in (1..picked.len()).rev() { let j = r.below(i as u64 + 1) as usize; picked.swap(i, j); } picked.truncate(3); }
     for s in &picked {
         let tx = gen::tx_of(r, s); let b = serialize(&tx); let tail = r.bytes(64);
-        for (p, k, e) in tx_positions(&tx) { if !matches!(k, PosKind::Tag | PosKind::RctType) || b.get(p) != Some(&e) { continue; }
+        let pos = tx_positions(&tx);
+        // no silent skip: a position table that does not match the serialisation is a harness failure (as in `perturbed`)
+        if pos.is_empty() || pos.iter().any(|(p, _, e)| b.get(*p) != Some(e)) { o.stat("structsweep.position-mismatch"); o.direct(false, "harness: structural position table does not match the serialisation", format!("c01_dec tx {}", hex(&b)), format!("{:?}", pos), "expected bytes".into()); continue; }
+        let (mut ntag, mut nrct) = (0usize, 0usize);
+        for (p, k, _) in pos { if !matches!(k, PosKind::Tag | PosKind::RctType) { continue; }
+            if k == PosKind::Tag { ntag += 1; o.stat("structsweep.positions.tag"); } else { nrct += 1; o.stat("structsweep.positions.rcttype"); } o.stat("structsweep.positions");
             for v in 0..=255u8 { let mut m = b.clone(); m[p] = v; m.extend_from_slice(&tail); dec_case(o, "tx", &m, "structsweep"); } }
+        // the sweep is not vacuous: one tag per input and per output (at least one when the shape has any), and the RingCT type byte of every
+        // version-2 shape with inputs
+        let want_rct = if s.version != 1 && s.nin > 0 { 1 } else { 0 };
+        o.direct(ntag == s.nin + s.nout && (ntag >= 1 || s.nin + s.nout == 0), "harness: the structural sweep visits the tag of every input and of every output target of the shape", format!("c01_dec tx {}", hex(&b)), format!("{} tag positions", ntag), format!("{} ({:?})", s.nin + s.nout, s));
+        o.direct(nrct == want_rct, "harness: the structural sweep visits the RingCT type byte of every version-2 shape with inputs", format!("c01_dec tx {}", hex(&b)), format!("{} type positions", nrct), format!("{} ({:?})", want_rct, s));
     }
+    // every shape of the fixed pool has inputs and outputs: at least one tag position and (seven of the eight shapes) the type byte per shape
+    let swept = *o.stats.get("structsweep.positions").unwrap_or(&0);
+    o.direct(swept >= picked.len() as u64, "harness: the structural sweep swept at least one position per picked shape", "structural_sweeps".into(), swept.to_string(), format!(">= {}", picked.len()));
     for (k, t) in [RctType::Simple, RctType::Bulletproof2, RctType::BulletproofPlus, RctType::Full, RctType::Clsag].iter().enumerate() {
         if !thorough && k >= 2 { break; }
         let tx = gen::tx_of(r, &gen::Shape { vary_rings: false, version: 2, nin: 2, ring: 1, nout: 2, coinbase_first: false, all_coinbase: false, rct: *t, nbp: 0, extra_len: 0 });
@@ -285,6 +307,78 @@ fn strict_family(o: &mut Out, r: &mut Rng, n: usize) {
             strict_case(o, ty, &b, "valid"); let mut bs = b.clone(); bs.push(r.byte()); strict_case(o, ty, &bs, "suffix"); if !b.is_empty() { strict_case(o, ty, &b[..b.len() - 1], "truncated"); }
             let m = gen::mutate(r, &b); strict_case(o, ty, &m, "mutated"); }
     }
+}
+
+/// Family "primitive values": the fifth field of `c01_dec` for the fixed-width integers, `bool` and `RctType` is the decoded VALUE
+/// (model: `uintLE` / `intLE` / `boolDec` / `rctType`), here at the boundaries of every width (0, 1, MAX, MIN, -1, sign bit alone, random)
+/// with one byte behind; intrinsic oracle: the printed value is the little-endian / two's-complement reading of the consumed bytes
+/// computed here by plain arithmetic, `byte != 0` for bool and the byte itself for RctType.
+fn primitive_values(o: &mut Out, r: &mut Rng) {
+    let want_of = |ty: &str, b: &[u8]| -> Option<String> {
+        let w = match ty { "u8" | "i8" | "bool" | "rcttype" => 1usize, "u16" | "i16" => 2, "u32" | "i32" => 4, _ => 8 };
+        if b.len() < w { return None; }
+        let n: u128 = b[..w].iter().rev().fold(0u128, |a, x| a * 256 + *x as u128);
+        Some(match ty { "bool" => (n != 0).to_string(), "rcttype" => if n <= 6 { n.to_string() } else { return None },
+            t if t.starts_with('u') => n.to_string(),
+            _ => if n >= 1u128 << (8 * w - 1) { format!("-{}", (1u128 << (8 * w)) - n) } else { n.to_string() } })
+    };
+    let mut case = |o: &mut Out, ty: &str, b: &[u8], fam: &str| {
+        dec_case(o, ty, b, fam);
+        let line = format!("c01_dec {} {}", ty, hex(b));
+        let res = o.impls.last().cloned().unwrap_or_default();
+        let got = res.split(' ').nth(4).map(|x| x.to_string());
+        let want = want_of(ty, b);
+        o.stat(&format!("value.{}.{}", ty, match &want { None => "none", Some(v) if v.starts_with('-') => "negative", Some(v) if v == "0" || v == "false" => "zero", _ => "positive" }));
+        o.direct(got == want, "C01/C02: the decoded value of a primitive is the little-endian (two's-complement for iN) reading of its bytes", line, format!("{:?}", got), format!("{:?}", want));
+    };
+    for (ty, w) in [("u8", 1usize), ("u16", 2), ("u32", 4), ("u64", 8), ("i8", 1), ("i16", 2), ("i32", 4), ("i64", 8)] {
+        let mut pats: Vec<Vec<u8>> = vec![vec![0; w], vec![0xff; w]];
+        let mut p = vec![0u8; w]; p[0] = 1; pats.push(p);                       // 1
+        let mut p = vec![0u8; w]; p[w - 1] = 0x80; pats.push(p);                // MIN / 2^(8w-1)
+        let mut p = vec![0xffu8; w]; p[w - 1] = 0x7f; pats.push(p);             // MAX of iN
+        let mut p = vec![0xffu8; w]; p[0] = 0xfe; pats.push(p);                 // -2
+        let mut p = vec![0u8; w]; p[w - 1] = 0x80; p[0] |= 1; pats.push(p);     // MIN + 1
+        let mut p = vec![0u8; w]; p[w - 1] = 1; pats.push(p);                   // high byte alone: byte order
+        for _ in 0..4 { pats.push(r.bytes(w)); }
+        for p in pats { case(o, ty, &p, "value"); let mut q = p.clone(); q.push(r.byte()); case(o, ty, &q, "value"); if w > 1 { case(o, ty, &p[..w - 1], "value"); } }
+    }
+    for v in 0..=255u8 { case(o, "bool", &[v], "value"); case(o, "rcttype", &[v], "value"); case(o, "i8", &[v], "value"); case(o, "u8", &[v], "value"); }
+}
+
+/// strict parsing of the stand-alone types whose `c01_strict` arms nothing else reaches: String (valid and invalid UTF-8), Vec<VarInt>
+/// (ring offsets of generated inputs), Key (32 / 31 / 33 bytes), u32 (4 / 3 / 5 bytes) — valid, + suffix, truncated, mutated
+fn strict_standalone(o: &mut Out, r: &mut Rng, n: usize) {
+    let four = |o: &mut Out, r: &mut Rng, ty: &str, b: &[u8]| {
+        strict_case(o, ty, b, "valid"); let mut bs = b.to_vec(); bs.push(r.byte()); strict_case(o, ty, &bs, "suffix");
+        if !b.is_empty() { strict_case(o, ty, &b[..b.len() - 1], "truncated"); }
+        let m = gen::mutate(r, b); strict_case(o, ty, &m, "mutated"); };
+    for sbytes in [&b""[..], b"crypto", "h\u{e9}llo \u{1f980} \u{3b2}".as_bytes(), &[0xff, 0xfe][..], &[0xc3][..], &[0xe2, 0x82][..], &[0xed, 0xa0, 0x80][..], &[0xf4, 0x90, 0x80, 0x80][..], &[0xc0, 0xaf][..], &[0x61, 0x80][..]] {
+        let mut b = gen::varint_bytes(sbytes.len() as u64); b.extend_from_slice(sbytes);
+        o.stat(if std::str::from_utf8(sbytes).is_ok() { "strict.string.gen.utf8" } else { "strict.string.gen.not-utf8" });
+        four(o, r, "string", &b);
+    }
+    for len in [127usize, 128, 129, 300] { let s: String = (0..len).map(|i| if i % 7 == 0 { '\u{e9}' } else { 'a' }).collect(); let mut b = gen::varint_bytes(s.len() as u64); b.extend_from_slice(s.as_bytes()); o.stat("strict.string.gen.utf8"); four(o, r, "string", &b);
+        // the last character cut in half: the declared length is right, the bytes are not UTF-8
+        let mut c = s.into_bytes(); c.push(0xc3); let mut b = gen::varint_bytes(c.len() as u64); b.extend_from_slice(&c); o.stat("strict.string.gen.not-utf8"); four(o, r, "string", &b); }
+    for it in 0..n {
+        // random text: mostly valid UTF-8 of 1..4-byte characters, one in three with a byte replaced
+        let len = r.below(12) as usize; let mut s = String::new(); for _ in 0..len { s.push(*r.pick(&['a', 'Z', '0', ' ', '\u{e9}', '\u{3b2}', '\u{2211}', '\u{1f980}', '\u{10ffff}', '\u{7f}', '\u{80}', '\u{7ff}', '\u{800}', '\u{ffff}', '\u{10000}'])); }
+        let mut c = s.into_bytes(); if it % 3 == 0 && !c.is_empty() { let i = r.below(c.len() as u64) as usize; c[i] = r.byte(); }
+        let mut b = gen::varint_bytes(c.len() as u64); b.extend_from_slice(&c);
+        o.stat(if std::str::from_utf8(&c).is_ok() { "strict.string.gen.utf8" } else { "strict.string.gen.not-utf8" });
+        four(o, r, "string", &b);
+        // ring offsets of the inputs of a generated transaction
+        let tx = gen::tx(r);
+        for i in tx.prefix.inputs.iter().take(2) { if let TxIn::ToKey { key_offsets, .. } = i { four(o, r, "vec_varint", &serialize(key_offsets)); } }
+        if it % 4 == 0 { let v: Vec<VarInt> = (0..[0usize, 1, 127, 128, 129][(it / 4) % 5]).map(|_| gen::vi(r)).collect(); four(o, r, "vec_varint", &serialize(&v)); }
+        // Key: 32 bytes exactly; u32: 4 bytes exactly
+        let k = if it % 2 == 0 { r.arr32() } else { gen::special_point(r) };
+        strict_case(o, "key", &k, "valid"); strict_case(o, "key", &k[..31], "truncated"); let mut k33 = k.to_vec(); k33.push(r.byte()); strict_case(o, "key", &k33, "suffix"); let m = gen::mutate(r, &k); strict_case(o, "key", &m, "mutated");
+        let u = match it % 5 { 0 => 0u32, 1 => u32::MAX, 2 => 0x8000_0000, 3 => 1 << r.below(32), _ => r.next() as u32 }.to_le_bytes();
+        strict_case(o, "u32", &u, "valid"); strict_case(o, "u32", &u[..3], "truncated"); let mut u5 = u.to_vec(); u5.push(r.byte()); strict_case(o, "u32", &u5, "suffix"); let m = gen::mutate(r, &u); strict_case(o, "u32", &m, "mutated");
+    }
+    for len in [0usize, 1, 30, 31, 32, 33, 34, 64] { let b = r.bytes(len); strict_case(o, "key", &b, "raw"); }
+    for len in 0..=9usize { let b = r.bytes(len); strict_case(o, "u32", &b, "raw"); }
 }
 
 pub fn run(o: &mut Out, tier: &str, seed: u64) {
@@ -369,6 +463,11 @@ pub fn run(o: &mut Out, tier: &str, seed: u64) {
     long_vectors(o, &mut r2, thorough);
     standalone(o, &mut r2);
     strict_family(o, &mut r2, if thorough { 400 } else { 60 });
+    // --- families added after the review (again their own generator state) ---
+    let mut r3 = Rng::new(seed ^ 0x0c01_b0d2);
+    primitive_values(o, &mut r3);
+    strict_standalone(o, &mut r3, if thorough { 300 } else { 40 });
     o.notes.push("added families: every structural count/tag byte (and every byte of small records) ±1 with 100 random bytes appended; unusual and multi-byte versions in front of every body kind; 256-value sweeps at every input tag / target tag / RingCT type byte wherever it lies, and of the RingCT base decoder alone; accepted vectors with counts across 127/128 and 255/256; stand-alone RctType / bool / signed integer / boxed-slice / multisig codecs; `deserialize` against the model's `strict`".into());
+    o.notes.push("after the review: `c01_dec` of u8..u64 / i8..i64 / bool / rcttype answers with the decoded VALUE as a fifth field on both sides (model value of uintLE / intLE / boolDec / rctType against the library's `to_string`; family `primitive values`: boundaries of every width, all 256 bytes for the one-byte types, plus the direct oracle value == little-endian two's-complement reading of the bytes); the structural sweep reports a position table that does not match the serialisation instead of skipping, counts its positions (`structsweep.positions[.tag|.rcttype]`) and asserts one tag per input and output and the type byte of every version-2 shape with inputs; `deserialize` against the model's `strict` now also for String (valid / invalid UTF-8), Vec<VarInt> (ring offsets), Key (32/31/33 bytes) and u32 (4/3/5 bytes): `strict.string|vec_varint|key|u32.*` (vec_u8, vec_key, box_key come from `strict_family`)".into());
     o.notes.push("non-trivial = distinct accepted inputs (the only ones on which C01 says anything) plus every base/prunable case; the malformed stream is 9 mutation kinds, tag sweeps, every-position truncation and declared-length attacks".into());
 }
